@@ -3,7 +3,8 @@ from lib import *
 
 TITLES = [b"", b"Hello", "Grüße 世界 \U0001F600".encode(), b"x" * 300, b"a"]
 LANGS = [b"eng", b"und", b"deu", b"zzz", b"aaa", b"ENG", b"e1g", b"en", b"", "éèa".encode(), b"engx"]
-CTIMES = [0, 1, 86399, 86400, 951782400, 951868799, 1700000000, 4102444800, 253402300799, 2**32, 2**40]
+CTIMES = [0, 1, 86399, 86400, 951782400, 951868799, 1700000000, 4102444800, 253402300799, 2**32, 2**40,
+          68169600, 825552000, 1078012800, 1709164800, 1709251199, 3981398400, 4107456000, 4107542400, 13574563200]
 
 AAC_RATES = [96000, 88200, 64000, 48000, 44100, 32000, 24000, 22050, 16000, 12000, 11025, 8000, 7350]
 
@@ -528,6 +529,8 @@ def fam_names(rng, n, prefix):
         elif k < 5:
             t = bytes(rng.choice(b"aAcChHeEvV12645.-lLtTpPsSrRmMiInNoOuU ") for _ in range(rng.range(0, 8)))
             out.append(fn_case(cid, rng.choice(["parse_video_codec", "parse_audio_codec"]), hx(t)))
+        elif k < 6 and rng.chance(1, 4):
+            out.append(fn_case(cid, "invariant_log", "-"))
         elif k < 6:
             out.append(fn_case(cid, "video_codec_name", rng.choice(V_VCODECS)))
         else:
@@ -836,6 +839,30 @@ def fam_negative_cts_av(rng, n, prefix):
         for _, _, o in ops:
             c.o(*o)
         c.o("fin", 0)
+        out.append(c)
+    return out
+
+
+# ---------- creation times on calendar boundaries (C18/C12/C16) ----------
+def fam_ctimes(rng, n, prefix):
+    import datetime
+    out = []
+    epoch = datetime.datetime(1970, 1, 1)
+    for i in range(n):
+        y = rng.choice([rng.range(1970, 2110), rng.range(1970, 2110), rng.range(2110, 2500), 2000, 2100, 2400, 9999, rng.choice([1972, 2024, 2096])])
+        leap = (y % 4 == 0 and y % 100 != 0) or y % 400 == 0
+        md = rng.choice([(2, 28), (2, 29) if leap else (3, 1), (2, 29) if leap else (2, 28), (3, 1), (12, 31), (1, 1), (rng.range(1, 12), rng.range(1, 28))])
+        sec = rng.choice([0, 86399, rng.below(86400)])
+        t = int((datetime.datetime(y, md[0], md[1]) - epoch).total_seconds()) + sec
+        cfg = rand_cfg(rng, audio=rng.choice(["none-cfg", "aac-lc"]), dims=(640, 480), meta=0)
+        c = Case("%s%d" % (prefix, i), "mux")
+        emit_cfg(c, cfg, rng)
+        if rng.chance(1, 2):
+            c.b("ctime", "%x" % t)
+        else:
+            c.b("meta", hx(b"t") if rng.chance(1, 2) else "~", "%x" % t, "~")
+        c.o("wv", fb(0.0), hx(video_key(rng, cfg["codec"])), 1)
+        c.o("fin", rng.choice([0, 1, 3]))
         out.append(c)
     return out
 
